@@ -47,6 +47,58 @@ def check_partial_reads(ctx, g):
     ctx.rule("io.complete-reads", complete, floor=340, note=f"complete reads (read_exact/read_to_end) on decode paths; partial-read calls found: {n} (expected 0; matcher fixture checked)")
 
 
+def check_builtin_lossless(ctx, g):
+    """Hand-written decode helpers (manual types, util::functions::shared): a value that comes from the wire may not pass through a
+    non-injective integer operation (integer division / remainder, narrowing integer cast) on its way into the decoded value -
+    otherwise distinct wire encodings decode to the same value and re-encoding cannot reproduce the bytes."""
+    from ..intconv import INT_TYPES, int_range
+    F = g.f("wow_world_messages")
+    n = 0
+
+    def decode_side(fn):
+        nm = fn["name"]
+        if nm.startswith(("packed_to_", "read_")) or nm.endswith("_read") or nm == "read":
+            return True
+        return False
+
+    for fn in F.all("fn", lambda p: p.startswith("crate::util::functions::shared::") or p.startswith("crate::manual::")):
+        if fn.get("hir") is None or not decode_side(fn):
+            continue
+        n += 1
+        seen = set()
+        for x in H.walk(fn["hir"]):
+            if H.tag(x) == "bin" and x[2] in ("Div", "Rem") and x[3] in INT_TYPES:
+                d = H.lit_int(x[5])
+                if d in (1, -1) or H.lit_int(x[4]) is not None:
+                    continue
+                k = f"{x[2]}|{H.short(x[4], maxlen=40)}"
+                if k in seen:
+                    continue
+                seen.add(k)
+                ctx.violate("taint.lossless-read", f"wow_world_messages::{fn['path']}|{k}",
+                            f"{fn['path']}: `{H.short(x, maxlen=80)}` is an integer {'division' if x[2] == 'Div' else 'remainder'} on a value decoded from the wire: "
+                            f"the low bits are discarded, so different wire values decode to the same value and the writer cannot reproduce the bytes", fn["file"], fn["line"])
+            if H.tag(x) == "cast" and x[2] in INT_TYPES and x[3] in INT_TYPES:
+                a, b = int_range(x[2]), int_range(x[3])
+                if not (b[0] <= a[0] and a[1] <= b[1]) and INT_TYPES[x[3]][0] < INT_TYPES[x[2]][0]:
+                    inner = H.strip(x[4])
+                    # a masked or shifted-down value that fits is fine: (v & 0xFF) as u8, (v >> 24) as u8
+                    fits = False
+                    if H.tag(inner) == "bin" and inner[2] == "BitAnd" and (H.lit_int(inner[5]) or 1 << 70) <= b[1]:
+                        fits = True
+                    if H.tag(inner) == "bin" and inner[2] == "Shr" and H.lit_int(inner[5]) is not None and INT_TYPES[x[2]][0] - H.lit_int(inner[5]) <= INT_TYPES[x[3]][0]:
+                        fits = True
+                    if H.tag(inner) in ("mcall", "call") and any(t in H.short(inner) for t in ("len", "count_ones", "size")):
+                        fits = True
+                    if not fits:
+                        k = f"cast|{x[2]}->{x[3]}|{H.short(inner, maxlen=40)}"
+                        if k not in seen:
+                            seen.add(k)
+                            ctx.violate("taint.lossless-read", f"wow_world_messages::{fn['path']}|{k}",
+                                        f"{fn['path']}: `{H.short(x, maxlen=80)}` narrows a {x[2]} decoded from the wire to {x[3]}", fn["file"], fn["line"])
+    ctx.rule("taint.builtin-lossless", n, floor=20, note="hand-written decode helpers scanned for non-injective integer steps (division, remainder, narrowing casts)")
+
+
 def run(ctx):
     st = state()
     n_read = n_write = 0
@@ -109,6 +161,7 @@ def run(ctx):
     from . import c01_leaf
     leaf_cases = c01_leaf.run(ctx)
     check_partial_reads(ctx, st["g"])
+    check_builtin_lossless(ctx, st["g"])
     ctx.rule("lay.read-write-ref", n_read + n_write, floor=READ_FLOOR + WRITE_FLOOR,
              note=f"{n_read} reader and {n_write} writer layouts of {n_containers} containers vs wowm reference ({len(skipped)} non-wire helper structs skipped)")
     ctx.rule("opc.table", n_opc, floor=OPC_FLOOR, note="opcode enum arms / payload types / OPCODE consts / writer delegation")
